@@ -6,7 +6,7 @@ CONSTANTS
   GridSeq <- G_Three
   StateModes <- M_Full
   Patterns <- P_Few
-  Extents <- X_Few
+  Extents <- X_Half
   Deltas <- D_Few
   Factors <- F_Few
   Shifts <- S_Many
